@@ -12,7 +12,28 @@ from .. import evidence, findings, gen, par, tlc
 from ..shims import import_dclab
 
 PID = "C02"
-KINDS = ("hdf5", "dict", "child", "basin")
+KINDS = ("hdf5", "dict", "lazy", "child", "basin")
+
+
+class LazyStack:
+    """event-wise container without __array__ (like the tdms image/mask
+    columns): forces the exporter's slow route"""
+
+    def __init__(self, arr):
+        self._a = arr
+        self.shape = arr.shape
+        self.dtype = arr.dtype
+        self.ndim = arr.ndim
+
+    def __len__(self):
+        return len(self._a)
+
+    def __getitem__(self, i):
+        if isinstance(i, slice):
+            return self._a[i]
+        if not isinstance(i, (int, np.integer)):
+            raise TypeError("event-wise or slice access only")
+        return self._a[int(i)]
 FEATS_FILE = ("deform", "area_um", "image", "mask", "contour", "trace",
               "fl1_max", "frame")
 
@@ -28,6 +49,14 @@ def build_source(kind, n, root):
                            tables={"srctab": {"a": np.arange(4.0),
                                               "b": np.arange(4.0) + 7}})
         return dclab.new_dataset(p), list(range(1, n + 1)), list(FEATS_FILE)
+    if kind == "lazy":
+        ids = list(range(1, n + 1))
+        d = {"deform": gen.scalar("deform", ids),
+             "image": LazyStack(gen.image(ids)),
+             "mask": LazyStack(gen.mask(ids))}
+        ds = dclab.new_dataset(d)
+        ds.config["experiment"]["run identifier"] = "lazy-run"
+        return ds, ids, ["deform", "image", "mask"]
     if kind == "dict":
         ids = list(range(1, n + 1))
         d = {f: gen.encode(f, ids) for f in ("deform", "area_um", "fl1_max")}
@@ -307,7 +336,7 @@ def main(tier, seed, replay=None):
     try:
         for nn in sorted({c["n"] for c in cases}):
             for k in KINDS:
-                if k != "dict":
+                if k not in ("dict", "lazy"):
                     build_source(k, nn, root)[0].close()
         jobs = [(c, k, root) for c in cases for k in KINDS]
         for case, viols in par.pmap(_replay, jobs, chunk=20):
